@@ -57,3 +57,21 @@ func VerifC14sMachineView(m *sliceMachine) (taskProcs, maxTaskProcs int, health 
 	}
 	return m.taskProcs, m.maxTaskProcs, h
 }
+
+// VerifC14sSessionManager returns the machine manager that the session's cluster
+// executor uses for cluster i (created on first use, as a task's Run does).
+func VerifC14sSessionManager(sess *Session, i int) interface{} {
+	return sess.executor.(*bigmachineExecutor).manager(i)
+}
+
+// VerifC14sSessionManagers returns the managers the executor has published.
+func VerifC14sSessionManagers(sess *Session) []interface{} {
+	b := sess.executor.(*bigmachineExecutor)
+	b.mu.Lock()
+	defer b.mu.Unlock()
+	var out []interface{}
+	for _, m := range b.managers {
+		out = append(out, m)
+	}
+	return out
+}
